@@ -244,10 +244,12 @@ Section Outcome.
 
   Lemma get_pop_segment c r' e ref sseq cell :
     dget (rs_seq r') (c_store c) = Some e -> is_submit (e_msg e) = true ->
+    (rs_cmd r' = SmppCommand_SUBMIT_SM_RESP \/ rs_cmd r' = SmppCommand_GENERIC_NACK) ->
     dget (rs_seq r') (c_seg c) = Some (ref, sseq) -> dget ref (c_stat c) = Some cell ->
     get_pop c r' = (with_stat (with_store c (ddel (rs_seq r') (c_store c))) (dset (c_stat c) ref (cell_after cell sseq r')), Some e).
   Proof.
-    intros Hs Hm Hg Hc. unfold get_pop. rewrite Hs, Hm. cbn [with_store c_seg c_stat]. rewrite Hg, Hc.
+    intros Hs Hm Hcmd Hg Hc. unfold get_pop. rewrite Hs, (answers_submit r' (e_msg e) Hm Hcmd). cbn [negb]. rewrite Hm.
+    cbn [with_store c_seg c_stat]. rewrite Hg, Hc.
     unfold cell_after, is_fail.
     destruct (rs_cmd r' =? SmppCommand_GENERIC_NACK); cbn [orb]; [reflexivity|].
     destruct (rs_status r' =? SmppCommandStatus_ESME_ROK); cbn [negb]; reflexivity.
@@ -314,7 +316,7 @@ Section Outcome.
     assert (is_submit (e_msg e) = true) as Hsub by (rewrite Hem; apply oseg_is_submit).
     assert (dget (rs_seq r') (c_store (h_corr s)) = Some e) as Hge' by (rewrite Hseq; exact Hge).
     assert (dget (rs_seq r') (c_seg (h_corr s)) = Some (K, Z.of_nat i + 1)) as Hbi' by (rewrite Hseq; exact Hbi).
-    pose proof (get_pop_segment (h_corr s) r' e K (Z.of_nat i + 1) cell Hge' Hsub Hbi' Hcell) as Hgp. fold cell' in Hgp.
+    pose proof (get_pop_segment (h_corr s) r' e K (Z.of_nat i + 1) cell Hge' Hsub Hcmd Hbi' Hcell) as Hgp. fold cell' in Hgp.
     set (c1 := with_stat (with_store (h_corr s) (ddel (rs_seq r') (c_store (h_corr s)))) (dset (c_stat (h_corr s)) K cell')) in *.
     assert (get_segmented c1 (rs_seq r') false = (fst (cumulated c1 K cell'), Some cell', snd (cumulated c1 K cell'))) as Hgs.
     { unfold get_segmented. cbn [c1 with_stat with_store c_seg c_stat]. rewrite Hbi', dget_dset_same.
@@ -727,7 +729,8 @@ Theorem plain_outcome s r' mid e :
 Proof.
   intros Hcmd Hg Hm Hseg Hplain. destruct outcome_constants as (C4 & CR & CN & C0 & CS & CF & CE & CT & HmR & HmN & Hlk).
   assert (get_pop (h_corr s) r' = (with_store (h_corr s) (ddel (rs_seq r') (c_store (h_corr s))), Some e)) as Hgp.
-  { unfold get_pop. rewrite Hg. unfold is_submit. rewrite Hm, Z.eqb_refl. cbn [with_store c_seg]. rewrite Hseg. reflexivity. }
+  { assert (is_submit (e_msg e) = true) as Hsub by (unfold is_submit; rewrite Hm; apply Z.eqb_refl).
+    unfold get_pop. rewrite Hg, (answers_submit r' (e_msg e) Hsub Hcmd). cbn [negb]. rewrite Hsub. cbn [with_store c_seg]. rewrite Hseg. reflexivity. }
   assert (forall c, c_seg c = c_seg (h_corr s) -> get_segmented c (rs_seq r') false = (c, None, 0)) as Hgs.
   { intros c Ec. unfold get_segmented. rewrite Ec, Hseg. reflexivity. }
   unfold handle_response. destruct Hcmd as [E|E]; rewrite E.
